@@ -73,6 +73,9 @@ type Sim struct {
 	done  chan struct{}
 
 	Viol      *Violation
+	// Findings are violations of directed sub-programs that do not end the run
+	// (used for known findings, so that they cannot starve the search).
+	Findings []Violation
 	Exited    bool
 	ExitCode  int
 	Truncated bool
@@ -592,4 +595,15 @@ func (s *Sim) SetPoolPolicy(p int) { s.polSet = true; s.pol = p }
 func Settle() {
 	Sleep(1)
 	Sleep(1)
+}
+
+// Finding records a violation observed by a directed sub-program without
+// ending the run.
+func Finding(clause, format string, a ...interface{}) {
+	s := S
+	if s == nil || s.dying {
+		return
+	}
+	s.Findings = append(s.Findings, Violation{Clause: clause, Msg: fmt.Sprintf(format, a...)})
+	Log("FINDING %s", clause)
 }
